@@ -108,9 +108,9 @@ Proof.
   intros d st0 stA stB logA logB ids WA WB V HA HB Hb i Hi.
   unfold valid_ids in V. rewrite Forall_forall in V. specialize (V i Hi).
   destruct (get_oms_valid st0 i V) as [o0 [_ A0]].
-  destruct (hi_occ _ _ _ HA i o0 ltac:(lia) A0) as [oA [AA CA]]. destruct (hi_occ _ _ _ HB i o0 ltac:(lia) A0) as [oB [AB CB]].
+  destruct (hi_occ _ _ _ HA i o0 (proj1 V) A0) as [oA [AA CA]]. destruct (hi_occ _ _ _ HB i o0 (proj1 V) A0) as [oB [AB CB]].
   exists oA, oB. split; [exact AA|]. split; [exact AB|].
-  apply (bitmap_ext d); [eapply WFst_at; eassumption | eapply WFst_at; eassumption|].
+  apply (bitmap_ext d); [exact (WFst_at d stA i oA WA AA) | exact (WFst_at d stB i oB WB AB)|].
   intros k. rewrite CA, CB, (Hb i k Hi). reflexivity.
 Qed.
 
@@ -128,5 +128,5 @@ Proof.
   assert (VA : valid_ids stA (path_oms rq)) by (unfold valid_ids in *; rewrite (hi_len _ _ _ HA); exact V).
   assert (VB : valid_ids stB (path_oms rq)) by (unfold valid_ids in *; rewrite (hi_len _ _ _ HB); exact V).
   apply (outcome_local d); try assumption.
-  eapply same_bookings_same_bitmaps; eassumption.
+  exact (same_bookings_same_bitmaps d st0 stA stB _ _ _ WA WB V HA HB Hb).
 Qed.
